@@ -25,6 +25,7 @@ type Vector struct {
 	Dflt    map[string]string `json:"dflt"` // the family's default configuration
 	Derived map[string]string `json:"derived"`
 	DI      bool              `json:"di"`
+	Form    string            `json:"form"` // "fwd", "rev" (fields reversed), "inline" (node written where it is used)
 	Repr    bool              `json:"repr"` // FALSE: the library's IR cannot hold the construct (required outcome: an error)
 }
 
@@ -47,6 +48,9 @@ func (v *Vector) Construct() string {
 	}
 	if len(parts) > 3 {
 		parts = parts[:3]
+	}
+	if v.Form == "inline" {
+		return v.Fam + "@inline:" + strings.Join(parts, ",")
 	}
 	return v.Fam + ":" + strings.Join(parts, ",")
 }
@@ -115,6 +119,9 @@ func (v *Vector) Label() string {
 	sort.Strings(parts)
 	if len(parts) > 4 {
 		parts = parts[:4]
+	}
+	if v.Form != "" && v.Form != "fwd" {
+		return v.Fam + "@" + v.Form + "[" + strings.Join(parts, ";") + "]"
 	}
 	return v.Fam + "[" + strings.Join(parts, ";") + "]"
 }
